@@ -205,46 +205,91 @@ def exc_fragment_strict(repo, tier="quick"):
     calls = fl.calls_to("pysmiles.read_smiles")
     need(calls, "anchor vanished: read_fragment_smiles no longer calls pysmiles.read_smiles", fi)
     obs = []
-    # the parity guard: a set toggled per RING_NUM token of the fragment text, and `if <set>: raise SyntaxError` behind the loop
-    guards = []          # cfg ids of `if <parity set>` nodes whose true arm always raises SyntaxError
+    # the parity guard: the ring markers of the fragment text are counted per index (a set toggled per RING_NUM token, or a
+    # Counter and `% 2`), and a test on that count raises SyntaxError on every path to the read
+    from .exc import arm_always_raises
+    guards = []          # cfg ids of `if` nodes on the count whose true arm always raises SyntaxError
     unknown_ring_checks = []
-    for n in cfg.nodes:
-        if n.kind != "for":
-            continue
-        itc = None
-        for sub in ast.walk(n.ast.iter):
+    derived = set()      # names computed from the token stream
+    tokenised = False
+    parity = False
+    stmts = [n for n in cfg.nodes if n.kind in ("stmt", "for") and n.ast is not None]
+    for n in stmts:
+        head = n.ast.iter if n.kind == "for" else n.ast
+        has_tok = False
+        for sub in ast.walk(head):
             if isinstance(sub, ast.Call):
                 t = repo.resolve_call(fi, sub)
                 if t is not None and t.kind == "ext" and t.name.endswith("_tokenize"):
-                    itc = sub
-        if itc is None:
-            continue
-        toggled = set()
-        for sub in ast.walk(n.ast):
-            if isinstance(sub, ast.If) and "RING_NUM" in ast.unparse(sub.test):
-                for x in ast.walk(sub):
-                    if isinstance(x, ast.AugAssign) and isinstance(x.op, ast.BitXor) and isinstance(x.target, ast.Name):
-                        toggled.add(x.target.id)
-                    if isinstance(x, ast.Assign) and len(x.targets) == 1 and isinstance(x.targets[0], ast.Name) and isinstance(x.value, ast.BinOp) and \
-                            isinstance(x.value.op, ast.BitXor) and any(isinstance(s_, ast.Name) and s_.id == x.targets[0].id for s_ in (x.value.left, x.value.right)):
-                        toggled.add(x.targets[0].id)
-                    if isinstance(x, ast.Call) and isinstance(x.func, ast.Attribute) and x.func.attr == "symmetric_difference_update" and isinstance(x.func.value, ast.Name):
-                        toggled.add(x.func.value.id)
-        if not toggled:
-            unknown_ring_checks.append(n)
-            continue
-        for m in cfg.nodes:
-            if m.kind == "if" and isinstance(m.ast.test, ast.Name) and m.ast.test.id in toggled and cfg.path_exists(n.id, m.id):
-                from .exc import arm_always_raises
-                ok, _why = arm_always_raises(fi, m, "T", {"SyntaxError"})
-                if ok:
-                    guards.append(m.id)
+                    has_tok = True
+        if has_tok:
+            tokenised = True
+            if n.kind == "for":
+                derived |= {x.id for x in ast.walk(n.ast.target) if isinstance(x, ast.Name)}
+                if "RING_NUM" not in ast.unparse(n.ast):
+                    unknown_ring_checks.append(n)
+            else:
+                if isinstance(n.ast, ast.Assign):
+                    for t_ in n.ast.targets:
+                        derived |= {x.id for x in ast.walk(t_) if isinstance(x, ast.Name)}
+                if "RING_NUM" not in ast.unparse(n.ast):
+                    unknown_ring_checks.append(n)
+    grew = True
+    while grew:
+        grew = False
+        for n in stmts:
+            if n.kind != "stmt":
+                continue
+            st = n.ast
+            tg, val = None, None
+            if isinstance(st, ast.Assign):
+                tg, val = st.targets, st.value
+            elif isinstance(st, ast.AugAssign):
+                tg, val = [st.target], st.value
+            if tg is None and isinstance(st, ast.Expr) and isinstance(st.value, ast.Call) and isinstance(st.value.func, ast.Attribute) and \
+                    isinstance(st.value.func.value, ast.Name):
+                # xs.add(token) / xs.symmetric_difference_update({token}): the receiver is computed from the tokens
+                tg, val = [st.value.func.value], st.value
+            if tg is None:
+                continue
+            used = {x.id for x in ast.walk(val) if isinstance(x, ast.Name)} | ({x.id for x in ast.walk(st.target) if isinstance(x, ast.Name)} if isinstance(st, ast.AugAssign) else set())
+            # a statement inside a loop over the tokens depends on them as well
+            in_tok_loop = any(l.kind == "for" and any(isinstance(c_, ast.Call) and getattr(repo.resolve_call(fi, c_), "name", "").endswith("_tokenize") for c_ in ast.walk(l.ast.iter))
+                              for l in enclosing_loops(fi, n.id))
+            if used & derived or in_tok_loop:
+                new_ = set()
+                for t_ in tg:
+                    new_ |= {x.id for x in ast.walk(t_) if isinstance(x, ast.Name)}
+                if not new_ <= derived:
+                    derived |= new_
+                    grew = True
+    for sub in ast.walk(fi.node):
+        if isinstance(sub, ast.AugAssign) and isinstance(sub.op, ast.BitXor) and isinstance(sub.target, ast.Name) and sub.target.id in derived:
+            parity = True
+        if isinstance(sub, ast.Assign) and isinstance(sub.value, ast.BinOp) and isinstance(sub.value.op, ast.BitXor) and \
+                any(isinstance(t_, ast.Name) and t_.id in derived for t_ in sub.targets):
+            parity = True
+        if isinstance(sub, ast.Call) and isinstance(sub.func, ast.Attribute) and sub.func.attr == "symmetric_difference_update":
+            parity = True
+        if isinstance(sub, ast.BinOp) and isinstance(sub.op, ast.Mod) and isinstance(sub.right, ast.Constant) and sub.right.value == 2 and \
+                {x.id for x in ast.walk(sub) if isinstance(x, ast.Name)} & (derived | {x.id for c_ in ast.walk(fi.node) if isinstance(c_, ast.comprehension)
+                                                                                  for x in ast.walk(c_.target) if isinstance(x, ast.Name)}):
+            parity = True
+    for m in cfg.nodes:
+        if m.kind == "if" and {x.id for x in ast.walk(m.ast.test) if isinstance(x, ast.Name)} & derived:
+            ok, _why = arm_always_raises(fi, m, "T", {"SyntaxError"})
+            if ok:
+                guards.append(m.id)
+    if tokenised and not parity:
+        unknown_ring_checks.append(None)
+    elif parity:
+        unknown_ring_checks = [u for u in unknown_ring_checks if u is None]
     for call, nid, _ in calls:
         kw = dict(fl.canon(call, nid)[4])
         strict = kw.get("strict", ("const", True))
         if strict != ("const", False):
             obs.append(ob_ok(oid, fi, call, construct="pysmiles.read_smiles(..., strict=%s)" % show(strict), instance="strict", reason="pysmiles reports malformed fragments"))
-        elif guards and any(cfg.dominates(g, nid) for g in guards):
+        elif guards and parity and any(cfg.dominates(g, nid) for g in guards):
             obs.append(ob_ok(oid, fi, call, construct="ring markers counted per index, odd count raises SyntaxError, in front of read_smiles(..., strict=False)", instance="strict",
                              reason="a ring index that is never closed is rejected before the lenient reader drops it"))
         elif unknown_ring_checks or guards:
